@@ -539,8 +539,47 @@ def payload_of(sc, r, ses, e, obs_v=None):
                                             "stdout", "stderr_tail")}}
 
 
+def classifier_selftest(ctx, n=6000):
+    """Development-time vetting (VERIF_C16_SELFTEST=<n>): for every scenario of a big random pool the session that
+    the EMPTY-harness machine (= the pinned tree) produces is synthesised from TLC's CASE lines, pushed through the
+    B1 classifier and through RunnerTrace: only catalogued signatures may come out and every session must be accepted.
+    This is how 'quiet on the unchanged tree for every seed' was vetted (3 pools, 21 383 scenarios)."""
+    rnd = common.rng(ctx, "selftest")
+    pool, seen = [], set()
+    for s in fixed_scenarios() + [random_scenario(rnd) for _ in range(n)]:
+        if sc_key(s) not in seen:
+            seen.add(sc_key(s))
+            s["id"] = len(pool) + 1
+            pool.append(s)
+    exp = expectations(ctx, pool, "st")
+    res = common.tlc(ctx, "MC_TestRunner", cfg="MC_TestRunner_cases_asis", workers=4, timeout=600, quiet=True,
+                     env_extra={"SCEN": os.path.join(ctx.work, "scen_st.ndjson")})
+    common.require_tlc_ok(ctx, res, "empty-harness case generation")
+    asis = {c["id"]: c for c in res["cases"]["CASE"] if not c["xpassStops"]}
+    bad, sessions = {}, []
+    for sc in pool:
+        a = asis[sc["id"]]
+        empty = not a["sel"]
+        ses = {"exit": a["exit"], "collected": None if empty else len(a["sel"]), "summary": None if empty else a["cnt"],
+               "lines": [{"file": "test_f1.incn", "name": NAMES[t - 1], "v": a["verdict"][t - 1], "extra": None}
+                         for t in list(a["sel"])[:a["nlines"]]],
+               "nocollect": empty, "nofiles": False, "malformed": [], "begin": a["ran"], "end": a["fin"], "stray": []}
+        fails, harness, _, _ = analyse(sc, {"file_of": {t: "test_f1.incn" for t in (1, 2, 3)}}, ses, exp[sc["id"]])
+        for sig, _, _ in fails:
+            if not known(ctx, sig):
+                bad.setdefault(sig, sc)
+        sessions.append(({"scenario": sc}, events(sc, ses, harness)))
+    acc = validate(ctx, sessions, "st")
+    common.log(f"[c16 selftest] {len(pool)} synthetic empty-harness sessions: uncatalogued signatures {list(bad)[:5]}, "
+               f"RunnerTrace accepted {acc}")
+    if bad or acc != len(sessions):
+        raise ToolError(f"classifier self-test failed: {json.dumps(bad)[:600]}")
+
+
 def run(ctx):
     rnd = common.rng(ctx, "c16")
+    if os.environ.get("VERIF_C16_SELFTEST"):
+        classifier_selftest(ctx, int(os.environ["VERIF_C16_SELFTEST"]))
     # ---------------------------------------------------------------- the model
     with ctx.timed("tlc_model"):
         # _1 also checks <>(pc = "done") as a temporal property; _2/_3: invariants, deadlock freedom, decreasing measure
